@@ -363,11 +363,11 @@ static void run_cells(void) {
     if (!vh_section_begin("cells")) {
         return;
     }
-    static const uint64_t ROWS[] = {0, 1, 2, 3, 255, 256};
-    static const uint64_t COLS[] = {1, 2, 7, 8, 9, 255, 256, 300};
+    static const uint64_t ROWS[] = {0, 1, 2, 3, 5, 16, 17, 255, 256, 257};
+    static const uint64_t COLS[] = {1, 2, 3, 7, 8, 9, 15, 16, 17, 255, 256, 257, 300};
     int complete = 1;
-    for (size_t a = 0; a < 6 && complete; a++) {
-        for (size_t b = 0; b < 8; b++) {
+    for (size_t a = 0; a < sizeof ROWS / sizeof *ROWS && complete; a++) {
+        for (size_t b = 0; b < sizeof COLS / sizeof *COLS; b++) {
             for (int kind = 0; kind < K_N; kind++) {
 #if !defined(__F16C__)
                 if (kind == K_HALF) {
